@@ -35,9 +35,10 @@ extern "C" void h_map_parse(void) {
   MapShape s = build_map(in);
   Garbage<Map> ga, gb;
   VF_TRY {
-    vf_scribble_stack(vf_nondet_u8());
+    uint8_t pat = vf_nondet_u8();            // natively run A sees the stack filled with pat.., run B with the complement
+    vf_scribble_stack(pat);
     Map* a = new (ga.raw) Map(Map::ReadMap(Stream::MemoryReader(in, s.total)));
-    vf_scribble_stack(vf_nondet_u8());
+    vf_scribble_stack((uint8_t)~pat);
     Map* b = new (gb.raw) Map(Map::ReadMap(Stream::MemoryReader(in, s.total)));
     vf_assert(maps_equal(*a, *b), "the same bytes parse to equal maps");
     Stream::MemoryWriter wa(g_a, sizeof g_a), wb(g_b, sizeof g_b);
@@ -63,9 +64,10 @@ extern "C" void h_art_parse(void) {
   ArtShape s = build_art(in);
   Garbage<ArtFile> ga, gb;
   VF_TRY {
-    vf_scribble_stack(vf_nondet_u8());
+    uint8_t pat = vf_nondet_u8();
+    vf_scribble_stack(pat);
     ArtFile* a = new (ga.raw) ArtFile(ArtFile::Read(Stream::MemoryReader(in, s.len)));
-    vf_scribble_stack(vf_nondet_u8());
+    vf_scribble_stack((uint8_t)~pat);
     ArtFile* b = new (gb.raw) ArtFile(ArtFile::Read(Stream::MemoryReader(in, s.len)));
     vf_assert(arts_equal(*a, *b), "the same bytes parse to equal sprite metadata");
     Stream::MemoryWriter wa(g_a, sizeof g_a), wb(g_b, sizeof g_b);
@@ -80,9 +82,10 @@ extern "C" void h_bmp(void) {
   unsigned n = build_bmp(in);
   Garbage<BitmapFile> ga, gb, gc, gd;
   VF_TRY {
-    vf_scribble_stack(vf_nondet_u8());
+    uint8_t pat = vf_nondet_u8();
+    vf_scribble_stack(pat);
     BitmapFile* a = new (ga.raw) BitmapFile(BitmapFile::ReadIndexed(Stream::MemoryReader(in, n)));
-    vf_scribble_stack(vf_nondet_u8());
+    vf_scribble_stack((uint8_t)~pat);
     BitmapFile* b = new (gb.raw) BitmapFile(BitmapFile::ReadIndexed(Stream::MemoryReader(in, n)));
     vf_assert(*a == *b, "the same bytes parse to equal bitmaps");
     Stream::MemoryWriter wa(g_a, sizeof g_a), wb(g_b, sizeof g_b);
